@@ -32,7 +32,9 @@ from typing import Any, Callable, Iterable, Sequence
 VERIF = Path(__file__).resolve().parent.parent
 REPO = Path(os.environ.get("MXLPY_VERIF_REPO", "/repo"))
 COQ = VERIF / "coq"
-EVIDENCE = VERIF / "evidence"
+# evidence of registered runs (against /repo itself) only; development runs against a scratch copy
+# (MXLPY_VERIF_REPO: mutation self-tests, seeded changes) must never overwrite the committed records
+EVIDENCE = VERIF / "evidence" if REPO == Path("/repo") else VERIF / "work" / "evidence-scratch"
 REPLAYS = VERIF / "replays"
 KNOWN_FINDINGS = VERIF / "known_findings.json"
 NCPU = int(os.environ.get("VERIF_JOBS", str(min(16, os.cpu_count() or 4))))
@@ -576,7 +578,7 @@ class Run:
             "wall_s": round(time.time() - self.t0, 2),
             "violations": len(self.violations),
         }
-        EVIDENCE.mkdir(exist_ok=True)
+        EVIDENCE.mkdir(parents=True, exist_ok=True)
         (EVIDENCE / f"{self.prop}.json").write_text(json.dumps(ev, indent=1, default=str))
         print(
             f"[{self.prop}] tier={self.tier} seed={self.seed} obligations={self.discharged}/{self.obligations} "
